@@ -1,6 +1,6 @@
 (* the stage orders and the numbering rule extracted from the current source are the ones the theorems are about *)
 From Coq Require Import String List Bool.
-From XV Require Import Model.Pipe Gen.T7pipe.
+From XV Require Import Model.Pipe Model.Concat Gen.T7pipe.
 Import ListNotations.
 Open Scope string_scope.
 
@@ -33,5 +33,5 @@ Definition wiring_ok (w : string * string * string * nat) : bool :=
     [("feature_name", "feature_name"); ("with_center", "center"); ("with_std", "standardize"); ("with_coslat", "use_coslat");
      ("check_nans", "check_nans"); ("n_modes", "n_pca_modes"); ("init_rank_reduction", "pca_init_rank_reduction");
      ("use_pca", "use_pca"); ("alpha", "alpha")].
-Lemma cross_wiring_ok : forallb wiring_ok cross_wiring = true /\ concatenator_splits_in_insertion_order = true.
+Lemma cross_wiring_ok : forallb wiring_ok cross_wiring = true /\ concat_rule = Insertion.
 Proof. split; reflexivity. Qed.
